@@ -233,7 +233,9 @@ func (g *pgen) count(k string) {
 	}
 }
 
-var litWords = []string{"lit", "abc", "Q", "hello world", "x1", "17", "true", "some-longer-literal-value-0123456789", "9"}
+var litWords = []string{"lit", "abc", "Q", "hello world", "x1", "17", "true", "some-longer-literal-value-0123456789", "9",
+	// commas and keywords inside a literal are part of the literal (D27, D32)
+	"a,b", "wait for it", "only if needed", "x, for y"}
 
 func (g *pgen) strLit() string {
 	q := `"`
